@@ -13,15 +13,53 @@ var commonStubs = []string{
 	"SHA-1/256/384/512: real digest on concrete input, otherwise an uninterpreted collision-free function of the input bytes",
 }
 
+const fnNeedsUpdate = "github.com/wokdav/gopki/generator/db.needsUpdate"
+
 var properties = map[string]propSpec{
+	"C08": {
+		ID: "C08",
+		Harnesses: []harnessSpec{
+			{Pkg: "generator/config", Fn: "vhMergeDiff", Reach: []string{"merged", "inherited"},
+				Quick: map[string]int{"P": 3, "C": 3, "ARCS": 3}, Thorough: map[string]int{"P": 4, "C": 4, "ARCS": 3},
+				What: "config.Merge vs. the merge rule of the statement on extension doubles (symbolic OID arc, content, optional, override); inputs must be unchanged"},
+		},
+		Bounds:  "profile and certificate extension lists of length 0..3 (quick) / 0..4 (thorough) over 3 OIDs and 2 contents, optional/override symbolic",
+		Outside: []string{"longer lists", "JSON equality of real extension types beyond the double (covered for kinds in C13)"},
+		Stubs:   commonStubs,
+	},
+	"C09": {
+		ID: "C09",
+		Harnesses: []harnessSpec{
+			{Pkg: "generator/config", Fn: "vhValidate3V", Reach: []string{"accepted", "rejected", "no-attribute-list"},
+				Quick: map[string]int{"P": 3, "S": 3}, Thorough: map[string]int{"P": 4, "S": 5},
+				What: "config.Validate vs. the three-valued oracle of the statement; profile attributes as custom OIDs 2.5.4.d with symbolic d, optional flags and allowOther symbolic"},
+		},
+		Bounds:  "profile attribute lists of length 0..3 (quick) / 0..4 (thorough), subjects of length 0..3 / 0..5, attribute types 2.5.4.3 .. 2.5.4.9 symbolic, pairwise distinct within each list",
+		Outside: []string{"repeated attribute types within one list (statement ambiguous)", "short names (same code path after the name table lookup)", "multi-valued RDNs"},
+		Stubs:   commonStubs,
+	},
+	"C10": {
+		ID: "C10",
+		Harnesses: []harnessSpec{
+			{Pkg: "generator/db", Fn: "vhPlanNoop", Reach: []string{"first-run-generated", "first-run-idle"},
+				Quick: map[string]int{"N": 2}, Thorough: map[string]int{"N": 3}, Summarize: []string{fnNeedsUpdate},
+				What: "two consecutive PlanBulkUpdate runs with the same flags (1..15) on an arbitrary forest state; the effect of the first BulkUpdate applied as a summary; second plan must be empty"},
+		},
+		Bounds:  "forests of 2 (quick) / 3 (thorough) entities, artifact states {cert+key, nothing, cert+csr} x hash {equal, different}, strategies 1..15, all timestamps symbolic",
+		Outside: []string{"mtimes in the future / files modified while the run is in progress (assumed away)", "certificates expiring between the two runs (assumed away: elapsed time is not part of the property)", "byte identity on a real file system"},
+		Stubs:   commonStubs,
+	},
 	"C11": {
 		ID: "C11",
 		Harnesses: []harnessSpec{
 			{Pkg: "generator/db", Fn: "vhNeedsUpdateTable", Reach: []string{"regenerate", "keep"},
 				What: "needsUpdate vs. the decision table of the statement: one entity (6 artifact states x 3 hash states, with/without issuer), strategy 0..31 and all timestamps symbolic"},
+			{Pkg: "generator/db", Fn: "vhPlanForest", Reach: []string{"planned", "kept", "issuer-and-subject-planned"},
+				Quick: map[string]int{"N": 3}, Thorough: map[string]int{"N": 3, "RICH": 1}, Summarize: []string{fnNeedsUpdate},
+				What: "PlanBulkUpdate on every forest of N entities: change list = entities with a reason or a regenerated issuer, issuers first, replace iff a certificate existed"},
 		},
-		Bounds:  "one entity with optional issuer; all 6x3 artifact/hash states; strategy 0..31, five timestamps per entity and 'now' symbolic in 1950..2200 with nanoseconds",
-		Outside: []string{"strategy values >= 32 (not producible by the CLI)", "real file-system mtimes", "time.Time values carrying a monotonic reading"},
-		Stubs:   commonStubs,
+		Bounds:  "table: one entity with optional issuer, all 6x3 artifact/hash states, strategy 0..31, five timestamps per entity and 'now' symbolic in 1950..2200 with nanoseconds; forests: all parent arrays on 3 entities, artifact states {cert+key, nothing} (quick) / {cert+key, nothing, cert+csr} x {hash equal, different} (thorough)",
+		Outside: []string{"strategy values >= 32 (not producible by the CLI)", "forests of more than 3 entities", "real file-system mtimes", "time.Time values carrying a monotonic reading"},
+		Stubs:   append([]string{"needsUpdate is summarised as a pure callee inside PlanBulkUpdate (its internal paths merged into one term); purity is assumed, and asserted for the database double by the table harness"}, commonStubs...),
 	},
 }
